@@ -8,7 +8,9 @@ VERDICT = 'C03_verdict'
 PROPS_FILE = 'theories/Props/C03.v'
 THEOREM = 'C03_dispatch_exactly_registered'
 CASE_TIMEOUT = 2
-RULE = ('random programs (0-16 top level operations after registering most handlers) over one '
+RULE = ('in 35 % of the cases the handler classes make their instances falsy (__bool__ False or '
+        '__len__ 0; identity and default equality untouched); '
+        'random programs (0-16 top level operations after registering most handlers) over one '
         'EventDispatcher (15 %: a World) with 2-5 scripted handlers of 1-5 classes built with type() '
         'and decorated with desper.event_handler: roots, chains, diamonds and other multiple '
         'inheritance (up to 3 bases, hierarchies Python\'s C3 rejects are re-drawn), decorated '
